@@ -7,7 +7,7 @@ from props import c06_extract as T
 
 NSLOT, NOBJ, NVAR, NCALL, NSENT = 10, 4, 4, 4, 4
 LAYOUTS = [(1, 1), (1, 2), (2, 1), (3, 1)]      # replace_program() family: variables of the first / second inherit
-NEFUN = 72
+NEFUN = 80
 # groups that build a cycle while they run (an error injected in the middle legitimately leaves cyclic garbage) or
 # keep a call_out handle in a local (71: the injected error would leave the call_out pending)
 NO_FAULT = (13, 48, 71)
@@ -129,7 +129,8 @@ class Gen:
             choices += [("newstr", 6), ("push", 6), ("pushr", 3), ("pop", 6), ("popto", 3), ("oref", 3),
                         ("clones", 2), ("unclone", 2), ("unload", 1 if self.late else 0), ("reclaimu", 0 if self.cyclic else 3)]
         else:
-            choices += [("err", 4), ("efun", 12), ("srange", 4), ("rest", 8), ("resto", 2), ("fefun", 6), ("frest", 3), ("reclaim", 0 if self.cyclic else 3)]
+            choices += [("err", 4), ("efun", 12), ("srange", 4), ("rest", 8), ("resto", 2), ("fefun", 6), ("frest", 3), ("reclaim", 0 if self.cyclic else 3),
+                        ("arange", 8), ("arangev", 5), ("brange", 2)]
         k = r.weighted(choices)
         S = self.slots
         if k == "newarr":
@@ -142,8 +143,9 @@ class Gen:
             self.emit("%s %d" % (k, d))
         elif k == "newbuf":
             d = r.below(NSLOT)
-            S[d] = self.new("buf")
-            self.emit("newbuf %d %d" % (d, r.range(1, 9)))
+            n = r.range(1, 9)
+            S[d] = self.new("buf", n)
+            self.emit("newbuf %d %d" % (d, n))
         elif k in ("newstr", "newmstr"):
             d = r.below(NSLOT)
             S[d] = self.new("str", 5)
@@ -437,6 +439,52 @@ class Gen:
                 text = damage(text, r)
             if " " not in text and 0 < len(text) < 200 and not text.startswith("#"):
                 self.emit("%s %s" % (k, text))
+        elif k in ("arange", "arangev"):
+            # v[d][i .. i+len-1] = rhs: temporary / shared right-hand side, same / shorter / longer, statement / value form
+            d = self.pick_slot(("arr",))
+            c = S[d]
+            size = c.size if c is not None and c.kind == "arr" else 2
+            i = r.below(size + 1)
+            ln = r.below(size - i + 1)
+            if k == "arange":
+                t = self.pick_slot()
+                n = r.weighted([(max(1, ln), 4), (ln + 1, 2), (max(1, ln - 1), 2), (r.range(1, 4), 1)])
+                rhs = [S[t]] * n
+            else:
+                t = self.pick_slot(("arr",))
+                tc = S[t]
+                if tc is None or tc.kind != "arr" or t == d:
+                    self.emit("arangev %d %d %d %d %d" % (d, i, ln, t, r.below(2)))
+                    return
+                n = tc.size
+                rhs = [tc.items.get(q) for q in range(min(n, 16))] + [None] * max(0, n - 16)
+            if c is not None and c.kind == "arr":
+                if n == ln:
+                    if not all(self.can_hold(c, x) for x in rhs):
+                        return
+                    for q in range(n):
+                        c.items[i + q] = rhs[q]
+                else:
+                    nc = self.new("arr", size - ln + n)
+                    old = [c.items.get(q) for q in range(size)] if size <= 400 else []
+                    for q, x in enumerate(old[:i] + list(rhs) + old[i + ln:]):
+                        if x is not None:
+                            nc.items[q] = x
+                    S[d] = nc
+            if k == "arange":
+                self.emit("arange %d %d %d %d %d %d" % (d, i, ln, n, t, r.below(2)))
+            else:
+                self.emit("arangev %d %d %d %d %d" % (d, i, ln, t, r.below(2)))
+        elif k == "brange":
+            d = self.pick_slot(("buf",))
+            c = S[d]
+            size = c.size if c is not None and c.kind == "buf" else 4
+            i = r.below(size + 1)
+            ln = r.below(size - i + 1)
+            n = r.choice([max(1, ln), ln + 1, max(1, ln - 1)])
+            if c is not None and c.kind == "buf" and n != ln:
+                S[d] = self.new("buf", size - ln + n)
+            self.emit("brange %d %d %d %d" % (d, i, ln, n))
         elif k == "reclaimu":
             self.emit("reclaimu")
         elif k == "reclaim":
@@ -849,6 +897,21 @@ class C06(Prop):
         mk("reclaim-objects-lpc", "lpc", ["newobj 0", "newobj 1", "newobj 2", "newobjr 3 2", "newarr 0 2", "newmap 1", "setvar 1 0 0",
                                           "reclaim", "dest 0", "dest 3", "reclaim", "reclaim", "cleanup", "dest 2", "cleanup", "reclaim",
                                           "getvar 2 1 0", "dest 1", "reclaim", "cleanup", "free 0", "free 1", "free 2"])
+        # assignment to a range lvalue: statement / value form, temporary / shared right-hand side, same / shorter / longer /
+        # empty range / whole array / append, every replaced and every new element a counted value
+        rng_head = ["newarr 0 4", "newarr 1 2", "newmap 2", "newmstr 3 rg", "newcls 4", "aset 0 0 1", "aset 0 1 2", "aset 0 2 3", "aset 0 3 4",
+                    "assign 5 0", "newarr 6 2", "aset 6 0 2", "aset 6 1 3"]
+        rng_tail = ["free 0", "free 1", "free 2", "free 3", "free 4", "free 5", "free 6", "free 7"]
+        for f in (0, 1):
+            mk("range-lvalue-temporary-%s" % ("statement", "value")[f], "lpc", rng_head +
+               ["arange 0 0 2 2 1 %d" % f, "arange 0 1 2 2 2 %d" % f, "arange 0 2 2 1 3 %d" % f, "arange 0 0 1 3 4 %d" % f, "arange 0 2 0 2 1 %d" % f,
+                "arange 0 0 0 1 2 %d" % f, "assign 7 0", "arange 0 7 0 2 3 %d" % f, "arange 0 0 9 1 1 %d" % f, "arange 7 0 7 7 4 %d" % f,
+                "arange 5 1 2 2 6 %d" % f] + rng_tail)
+            mk("range-lvalue-shared-%s" % ("statement", "value")[f], "lpc", rng_head +
+               ["arangev 0 0 2 6 %d" % f, "arangev 0 2 2 6 %d" % f, "arangev 0 1 1 6 %d" % f, "arangev 0 0 3 6 %d" % f, "arangev 0 2 0 6 %d" % f,
+                "assign 7 0", "arangev 0 0 2 7 %d" % f, "arangev 0 1 0 7 %d" % f, "arangev 5 0 4 6 %d" % f, "arangev 6 0 1 5 %d" % f] + rng_tail)
+        mk("range-lvalue-buffer", "lpc", ["newbuf 0 6", "assign 1 0", "brange 0 0 2 2", "brange 0 1 2 1", "brange 0 5 0 3", "brange 1 0 6 1",
+                                          "brange 0 0 8 8", "free 0", "free 1"])
         mk("errors-lpc", "lpc", ["newarr 0 2", "newmap 1", "newobj 0", "mset 1 0 0", "err 0 1", "efun 10 0 1",
                                  "efun 11 0 1", "err 1 0", "free 0", "free 1", "dest 0", "cleanup", "drop 0"])
         # repaired defects: copy() beyond the nesting limit leaked the partial copy; copy() of a class miscounted arrays
